@@ -162,6 +162,7 @@ type HarnessCfg struct {
 	StopOnViolation bool // stop exploring after the first violation
 	DumpDir         string
 	Seed            int64
+	Profile         bool
 }
 
 type FnStat struct {
@@ -197,6 +198,7 @@ type Result struct {
 	Problems     []string // unsupported / engine errors / inconclusive messages (deduplicated)
 	Wall         time.Duration
 	MaxPathInstr int64
+	Profile      map[string]int64
 }
 
 type pathResult struct {
@@ -331,7 +333,10 @@ func (i *interpreter) runPath(h *ssa.Function, prefix []int64, cfg *HarnessCfg, 
 		i: i, tt: NewTermTable(), solver: i.solver, prefix: prefix,
 		nondetCount: map[string]int{}, maxInstr: cfg.MaxInstr, loopBound: cfg.LoopBound,
 		covers: map[string]int{}, assertsSeen: map[string]int{}, fnCalls: map[*ssa.Function]int{},
-		counters: map[string]int64{}, ext: map[string]any{}, maxDeviations: cfg.MaxDeviations,
+		counters: map[string]int64{}, ext: map[string]any{}, known: map[*Term]bool{}, maxDeviations: cfg.MaxDeviations,
+	}
+	if cfg.Profile {
+		p.profile = map[*ssa.Function]int64{}
 	}
 	i.path = p
 	i.overrides = nil
@@ -426,7 +431,7 @@ func Explore(P *Program, cfg HarnessCfg) *Result {
 		cfg.SolverTimeoutMS = 10000
 	}
 	if cfg.LoopBound == 0 {
-		cfg.LoopBound = 256
+		cfg.LoopBound = 10000
 	}
 	if cfg.MaxInstr == 0 {
 		cfg.MaxInstr = 50_000_000
@@ -520,6 +525,12 @@ func Explore(P *Program, cfg HarnessCfg) *Result {
 				}
 				for f, c := range p.fnCalls {
 					fnStats[f] += c
+				}
+				for f, c := range p.profile {
+					if res.Profile == nil {
+						res.Profile = map[string]int64{}
+					}
+					res.Profile[f.String()] += c
 				}
 				for _, ip := range p.initProblems {
 					problems["init: "+ip]++
